@@ -383,6 +383,10 @@ def c12(res, v):
             refused_kind, want = 'method', (405 if r.cfg.polling else 400)     # the transport named by the request is checked before the method
         elif op[0] in ('poll', 'post') and not addressable(r, step, op[1]):
             refused_kind, want = 'dead-sid', 400
+        elif op[0] == 'upgrade' and not r.cfg.websocket:
+            # a WebSocket upgrade (whatever transport value the request names, however its header values are spelled) when the server
+            # does not allow the websocket transport
+            refused_kind, want = 'upgrade-not-allowed', 400
         if refused_kind is None:
             continue
         st = [o[2] for o in r.outs[step] if o[0] == 'resp']
